@@ -86,9 +86,9 @@ func c02Scenario(s shape, i int, after bool, extra int, r *vx.Rand) {
 }
 
 func runC02() {
-	nShapes := 42
+	nShapes := 400
 	if run.Thorough() {
-		nShapes = 520
+		nShapes = 6000
 	}
 	for n := 0; n < nShapes; n++ {
 		r := rnd.Fork()
